@@ -11,7 +11,9 @@ import (
 	"github.com/cloudwego/eino/flow/agent"
 	"github.com/cloudwego/eino/flow/agent/multiagent/host"
 	"github.com/cloudwego/eino/flow/agent/react"
+	"github.com/cloudwego/eino/callbacks"
 	"github.com/cloudwego/eino/schema"
+	ucb "github.com/cloudwego/eino/utils/callbacks"
 
 	"verif/harness/lib"
 )
@@ -453,17 +455,68 @@ func concatOneMsg(cs []*schema.Message) (*schema.Message, error) {
 
 // sharedAgentOpts: agent option values built once per object and reused by every call.
 func sharedAgentOpts() []agent.AgentOption {
+	// the compose options sit in a slice with spare capacity (an ordinary thing for a caller to
+	// hold): whoever appends to what GetComposeOptions hands out must not write into it
+	co := make([]compose.Option, 0, 8)
+	co = append(co,
+		compose.WithChatModelOption(model.WrapImplSpecificOptFn(func(o *mopt) { o.Val += "S" })),
+		compose.WithToolsNodeOption(compose.WithToolOption(tool.WrapImplSpecificOptFn(func(o *topt) { o.Val += "S" }))))
 	return []agent.AgentOption{
-		agent.WithComposeOptions(
-			compose.WithChatModelOption(model.WrapImplSpecificOptFn(func(o *mopt) { o.Val += "S" })),
-			compose.WithToolsNodeOption(compose.WithToolOption(tool.WrapImplSpecificOptFn(func(o *topt) { o.Val += "S" }))),
-		),
-		agent.WithComposeOptions(compose.WithCallbacks(sharedHandler("so"))),
+		agent.WithComposeOptions(co...),
+		agent.WithComposeOptions(compose.WithCallbacks(sharedHandler("so")), compose.WithCallbacks(agentCallback(nil, "sag"))),
 	}
 }
 
 func toolOptFn(tag, val string) tool.Option {
 	return tool.WrapImplSpecificOptFn(func(o *topt) { o.Tag, o.Val = tag, o.Val+val })
+}
+
+// agentCallback: a handler built with react.BuildAgentCallback (utils/callbacks handler
+// templates): model / tool callbacks of ONE call (owner != nil) or shared by all calls.
+func agentCallback(owner *callRec, name string) callbacks.Handler {
+	log := func(ctx context.Context, what string, info *callbacks.RunInfo, data string) context.Context {
+		n := ""
+		if info != nil {
+			n = info.Name
+		}
+		if owner != nil {
+			if who := recOf(ctx); who != owner {
+				other := "<none>"
+				if who != nil {
+					other = who.tag
+				}
+				owner.violate(fmt.Sprintf("agent callback %s of call %s fired in call %s", name, owner.tag, other))
+			}
+		}
+		ev(ctx, "cb:"+name+":"+what+":"+n)
+		see(ctx, "agent callback "+name+" "+what, data)
+		return ctx
+	}
+	mh := &ucb.ModelCallbackHandler{
+		OnStart: func(ctx context.Context, info *callbacks.RunInfo, in *model.CallbackInput) context.Context {
+			return log(ctx, "mstart", info, renderMsgs(in.Messages))
+		},
+		OnEnd: func(ctx context.Context, info *callbacks.RunInfo, out *model.CallbackOutput) context.Context {
+			return log(ctx, "mend", info, renderMsg(out.Message))
+		},
+		OnEndWithStreamOutput: func(ctx context.Context, info *callbacks.RunInfo, out *schema.StreamReader[*model.CallbackOutput]) context.Context {
+			out.Close()
+			return log(ctx, "msend", info, "")
+		},
+	}
+	th := &ucb.ToolCallbackHandler{
+		OnStart: func(ctx context.Context, info *callbacks.RunInfo, in *tool.CallbackInput) context.Context {
+			return log(ctx, "tstart", info, in.ArgumentsInJSON)
+		},
+		OnEnd: func(ctx context.Context, info *callbacks.RunInfo, out *tool.CallbackOutput) context.Context {
+			return log(ctx, "tend", info, out.Response)
+		},
+		OnEndWithStreamOutput: func(ctx context.Context, info *callbacks.RunInfo, out *schema.StreamReader[*tool.CallbackOutput]) context.Context {
+			out.Close()
+			return log(ctx, "tsend", info, "")
+		},
+	}
+	return react.BuildAgentCallback(mh, th)
 }
 
 func agentOpts(rc *callRec, bits int) []agent.AgentOption {
@@ -477,6 +530,9 @@ func agentOpts(rc *callRec, bits int) []agent.AgentOption {
 		copts = append(copts, compose.WithToolsNodeOption(compose.WithToolOption(tool.WrapImplSpecificOptFn(func(o *topt) { o.Tag, o.Val = tag, o.Val+val }))))
 	}
 	copts = append(copts, cbOptions(rc, bits, nil)...)
+	if bits&optCbThree != 0 {
+		copts = append(copts, compose.WithCallbacks(agentCallback(rc, "ag")))
+	}
 	if len(copts) == 0 {
 		return nil
 	}
@@ -638,7 +694,7 @@ func buildHost(r *lib.Rng, z *zoo) (*object, error) {
 		kind: "host", shape: shape,
 		nIn: len(hostScripts), paras: []string{"invoke", "stream"},
 		// optMaxSteps bit is reused here for "with hand-off callbacks"
-		optSet:  []int{0, optMaxSteps, optLambdaDesignated, optCbGlobal, optMaxSteps | optCbGlobal | optLambdaDesignated, optCtxHandlers | optMaxSteps, optShared, optShared | optMaxSteps | optLambdaDesignated},
+		optSet:  []int{0, optMaxSteps, optLambdaDesignated, optCbGlobal, optMaxSteps | optCbGlobal | optLambdaDesignated, optCtxHandlers | optMaxSteps, optShared, optShared | optMaxSteps | optLambdaDesignated, optCbThree | optMaxSteps},
 		baseCtx: sharedCtx,
 		call: func(ctx context.Context, rc *callRec, sp spec) string {
 			in := []*schema.Message{schema.UserMessage(rc.tag + " " + hostScripts[sp.In%len(hostScripts)])}
